@@ -31,6 +31,7 @@ type Clause struct {
 }
 
 type FuncContract struct {
+	TrustedFor []string // properties the trusted flag was tagged with (empty: all)
 	Pkg      string // package path ("" for external specs: name is absolute)
 	Name     string // RelString name
 	Trusted  bool   // body not verified; contract assumed
@@ -100,6 +101,16 @@ type OnlyRule struct {
 	Line    int
 }
 
+type GlobalConst struct {
+	Props []string
+	Name  string
+	Func  string
+	Lit   string
+	File  string
+	Pkg   string
+	Line  int
+}
+
 type MapRangeRule struct {
 	Props  []string
 	Func   string // function key
@@ -115,6 +126,7 @@ type MapRangeRule struct {
 type Contracts struct {
 	MapRanges []*MapRangeRule
 	Onlys  []*OnlyRule
+	GlobalConsts []*GlobalConst
 	Funcs  map[string]*FuncContract // key: pkgpath + "::" + relname, or absolute name for externals
 	Ghosts map[string]*GhostVar
 	Specs  map[string]*SpecFunc
@@ -125,7 +137,7 @@ type Contracts struct {
 }
 
 var clauseRe = regexp.MustCompile(`^(requires|hypothesis|ensures|xensures|invariant|decreases|assert|assume|modifies|trusted|pure|inline|noinline|nullable|maypanic|nopanic|let|set|init|specialize|assign)\b(\[[A-Za-z0-9, ]*\])?\s*(.*)$`)
-var topRe = regexp.MustCompile(`^(func|ghost|spec|axiom|lemma|iface|only|maprange)\b(\[[A-Za-z0-9, ]*\])?\s*(.*)$`)
+var topRe = regexp.MustCompile(`^(func|ghost|spec|axiom|lemma|iface|only|maprange|globalconst)\b(\[[A-Za-z0-9, ]*\])?\s*(.*)$`)
 
 func parseProps(s string) []string {
 	s = strings.Trim(s, "[]")
@@ -308,6 +320,16 @@ func (cs *Contracts) parseFile(fname, pkg, prefix string) {
 					r.Allowed = append(r.Allowed, a)
 				}
 				cs.Onlys = append(cs.Onlys, r)
+			case "globalconst":
+				// globalconst NAME FUNC "literal": the package variable NAME is assigned
+				// exactly once, in the package initializer, the value FUNC("literal")
+				re := regexp.MustCompile(`^(\S+)\s+(\S+)\s+"(.*)"$`)
+				m := re.FindStringSubmatch(rest)
+				if m == nil {
+					cs.errf(fname, l.line, "globalconst needs NAME FUNC \"literal\"")
+					continue
+				}
+				cs.GlobalConsts = append(cs.GlobalConsts, &GlobalConst{Props: props, Name: m[1], Func: m[2], Lit: m[3], File: fname, Pkg: pkg, Line: l.line})
 			case "axiom":
 				e, err := parseExpr(rest)
 				if err != nil {
@@ -358,7 +380,10 @@ func (cs *Contracts) parseFile(fname, pkg, prefix string) {
 		}
 		switch kind {
 		case "trusted":
+			// trusted[P]: the contract is an assumption for property P; the
+			// function's own code is still swept for safety (C20)
 			cur.Trusted = true
+			cur.TrustedFor = props
 		case "pure":
 			cur.Pure = true
 		case "inline":
